@@ -8,7 +8,8 @@ structure D where
   rejected : Bool := false
   /-- key and recycle flag of the release each thread is inside of -/
   rel : List (String × Nat × Bool) := []
-  acq : List (String × Nat) := []
+  /-- key, cooldown, and whether the constructor has run, of the acquire each thread is inside of -/
+  acq : List (String × Nat × Nat × Bool) := []
 
 def objOf (s : String) : Option Nat := match s.toInt? with | some i => if i < 0 then none else some i.toNat | none => none
 
@@ -20,10 +21,11 @@ def events (d : D) (toks : List String) : D × List Ev :=
   | ["init", l] => (d, [.init (l.toNat?.getD 0)])
   | ["tick", n] => (d, [.tick (n.toNat?.getD 0)])
   | ["q", n] => (d, [.tick (n.toNat?.getD 0)])
-  | ["ctor_begin", k, _] => (d, tm ++ [.ctorBegin (k.toNat?.getD 0)])
+  | ["ctor_begin", k, t, _] =>
+    ({ d with acq := d.acq.map fun (t', k', c, r) => if t' = t then (t', k', c, true) else (t', k', c, r) }, tm ++ [.ctorBegin (k.toNat?.getD 0)])
   | ["ctor_end", k, o, _] => (d, tm ++ [.ctorEnd (k.toNat?.getD 0) (objOf o)])
   | ["dtor", k, o, _] => (d, tm ++ [.dtor (k.toNat?.getD 0) (o.toNat?.getD 0)])
-  | ["call", t, "acquire", k, _, _] => ({ d with acq := (t, k.toNat?.getD 0) :: d.acq.filter (·.1 ≠ t) }, tm)
+  | ["call", t, "acquire", k, _, cd, _] => ({ d with acq := (t, k.toNat?.getD 0, cd.toNat?.getD 0, false) :: d.acq.filter (·.1 ≠ t) }, tm)
   | ["call", t, "release", k, r, _] =>
     let k := k.toNat?.getD 0
     -- effective recycle flag: demoted when another recycling release of this key is pending
@@ -31,7 +33,8 @@ def events (d : D) (toks : List String) : D × List Ev :=
     ({ d with rel := (t, k, eff) :: d.rel.filter (·.1 ≠ t) }, tm ++ [.callRelease k eff])
   | ["ret", t, "acquire", o, _] =>
     match d.acq.find? (·.1 = t) with
-    | some (_, k) => (d, tm ++ [.retAcquire k (objOf o)])
+    | some (_, k, cd, ran) =>
+      if (objOf o).isNone ∧ !ran then (d, tm ++ [.retAcquireNoCtor k cd]) else (d, tm ++ [.retAcquire k (objOf o)])
     | none => (d, tm)
   | ["ret", t, "release", _, _] =>
     match d.rel.find? (·.1 = t) with
